@@ -88,6 +88,24 @@ PROPS["C07"] = {
     "partial": "Pebble's WAL/manifest atomicity and real-disk sync semantics are trusted",
     "trusted_base": ["pebble.Batch.Commit(Sync) is atomic and durable", "vfs.NewStrictMem drop-unsynced semantics / SIGKILL process-death semantics"],
 }
+PROPS["C18"] = {
+    "suites": [{"name": "migrate", "timeout": 3000}],
+    "required_theorems": ["C18_migrate_eq", "C18_migrate_inv", "C18_export_migrate", "C18_get_after_add", "C18_get_after_batch",
+                          "C18_json_get_after_add", "C18_json_get_after_batch", "C18_full_file_ok", "C18_truncation_reported",
+                          "C18_atomic_replace"],
+    "level_text": "Kernel-checked: migration (AddSignatures over batches of 1000) imports exactly the last version of every ID for lists of ANY length and export returns them sorted by ID field for field; get-after-add (single and batch) on both backend models; the token-level decode loop never reports success with fewer signatures than the file holds, for every cut; a system-call trace that follows the temp-file/fsync/close/rename protocol leaves old-or-new content after a crash at any point. Tie: generated lists (sizes around the 1000 boundary, repeated IDs within and across batches, unicode) through the real MigrateFromJSON/ExportToJSON vs the store model and a last-wins oracle; EVERY byte truncation of small files vs the token model; jsondb add/get histories; SaveDatabase under strace checked by the executable protocol predicate.",
+    "level_note": "Trusted: Lean kernel; encoding/json's streaming Decoder as abstracted to tokens (validated per cut); gob round trip; rename(2) atomicity and fsync durability of the kernel; strace's view of the system calls.",
+    "trusted_base": ["encoding/json Decoder token semantics (abstracted, validated on every byte cut)", "kernel rename(2) atomicity / fsync durability"],
+}
+PROPS["C11"] = {
+    "suites": [{"name": "concurrent", "race": True, "timeout": 3000}],
+    "required_theorems": ["C11_scan_linearises", "C11_snapshot_in_window", "C11_versions_stable",
+                          "C11_scan_correct_for_version", "C11_mixed_read_counterexample"],
+    "level_text": "Kernel-checked interleaving theorem: for every schedule of writer commits, setter calls and reader steps, a finished scan equals the pure scan of the one version it snapped (which existed during the scan) at the threshold/tolerance it read; the live-read variant is refuted by a concrete schedule. Tie: stress under the race detector with a logged writer and version-window oracle computed by the Lean store model.",
+    "level_note": "PARTIAL: absence of data races and Pebble's snapshot isolation are runtime facts, exercised under -race, not proved; the Go scheduler is sampled.",
+    "partial": "data-race freedom and Pebble snapshot isolation are exercised, not proved",
+    "trusted_base": ["pebble.Snapshot isolation", "Go race detector (sampled schedules)"],
+}
 _PENDING = "check not built yet in this round (planned: Lean model + theorems + differential, see DESIGN.md §5)"
 # entries with "unclaimed": True are runnable (./check Cxx) but not yet claimed in MANIFEST.json
 NOT_APPLICABLE = {p: _PENDING for p in ["C%02d" % i for i in range(1, 21)] if p not in PROPS or PROPS[p].get("unclaimed")}
